@@ -402,6 +402,7 @@ fn search_history(case: &Value) -> Value {
     let archive = case["archive"].as_u64().map(uuid_of);
     let secret: Secret = Default::default();
     let mut live: HashSet<(uuid::Uuid, uuid::Uuid)> = HashSet::new();
+    let mut attrs: HashMap<(uuid::Uuid, uuid::Uuid), (u8, bool, bool)> = HashMap::new();
     for (n, o) in case["ops"].as_array().unwrap().iter().enumerate() {
         let f = uuid_of(o["folder"].as_u64().unwrap());
         match o["op"].as_str().unwrap() {
@@ -416,10 +417,14 @@ fn search_history(case: &Value) -> Value {
                     meta.set_tags(t);
                 }
                 meta.set_favorite(a["favorite"].as_bool() == Some(true));
-                if o["op"].as_str() == Some("add") {
+                let is_add = o["op"].as_str() == Some("add");
+                if is_add {
                     idx.add(&f, &i, &meta, &secret);
                 } else {
                     idx.update(&f, &i, &meta, &secret);
+                }
+                if !(is_add && live.contains(&(f, i))) {
+                    attrs.insert((f, i), (meta.kind().into(), !meta.tags().is_empty(), meta.favorite()));
                 }
                 live.insert((f, i));
             }
@@ -439,6 +444,14 @@ fn search_history(case: &Value) -> Value {
     let docs: HashSet<(uuid::Uuid, uuid::Uuid)> = idx.documents().values().map(|d| (*d.folder_id(), *d.id())).collect();
     if docs != live || idx.documents().len() != live.len() {
         mismatch.push("documents".into());
+    }
+    for d in idx.documents().values() {
+        if let Some(a) = attrs.get(&(*d.folder_id(), *d.id())) {
+            let got: (u8, bool, bool) = (d.meta().kind().into(), !d.meta().tags().is_empty(), d.meta().favorite());
+            if &got != a {
+                mismatch.push("stale document".into());
+            }
+        }
     }
     let mut rv: HashMap<uuid::Uuid, usize> = HashMap::new();
     let mut rk: HashMap<u8, usize> = HashMap::new();
@@ -823,6 +836,99 @@ async fn server_devices_case(case: &Value) -> Value {
 }
 
 
+/// C07 server part: `server_helpers::event_patch` (rewind + merge + rollback) on a real file-system
+/// `ServerStorage` whose folder log holds CreateVault followed by the scripted records.
+async fn server_event_patch_case(case: &Value) -> Value {
+    use sos_backend::BackendTarget;
+    use sos_core::events::patch::Patch;
+    use sos_core::events::{EventLog, EventLogType};
+    use sos_server_storage::{ServerAccountStorage, ServerStorage};
+    use sos_sync::{CreateSet, StorageEventLogs};
+
+    let dir = tmp_path("server-patch");
+    std::fs::create_dir_all(&dir).unwrap();
+    sos_core::Paths::scaffold(&dir).await.unwrap();
+    let account_id = account_of(7);
+    let mut storage = ServerStorage::new(BackendTarget::FileSystem(sos_core::Paths::new_server(&dir)), &account_id)
+        .await
+        .unwrap();
+    storage.paths().ensure().await.unwrap();
+    let vault = Vault::default();
+    let id = *vault.id();
+    let folder_record = EventRecord::encode_event(&WriteEvent::CreateVault(encode(&vault).await.unwrap())).await.unwrap();
+    let prefix_leaf = folder_record.commit().0;
+    let mut account_data = CreateSet::default();
+    account_data.folders.insert(id, Patch::new(vec![folder_record]));
+    if let Err(e) = storage.import_account(&account_data).await {
+        let _ = std::fs::remove_dir_all(&dir);
+        return json!({"outcome": "setup_failed", "error": e.to_string()});
+    }
+    let init: Vec<EventRecord> = case["log"].as_array().unwrap().iter().map(fs_record_of).collect();
+    {
+        let log = storage.folder_log(&id).await.unwrap();
+        let mut log = log.write().await;
+        if !init.is_empty() {
+            log.apply_records(init).await.unwrap();
+        }
+    }
+    let path = storage.paths().event_log_path(&id);
+    let file_before = std::fs::read(&path).unwrap_or_default();
+    let before = {
+        let log = storage.folder_log(&id).await.unwrap();
+        let log = log.read().await;
+        leaves_hex(log.tree())
+    };
+    let mut other = sos_core::commit::CommitTree::new();
+    let mut l: Vec<[u8; 32]> = vec![prefix_leaf];
+    l.extend(case["proof_of"].as_array().unwrap().iter().map(|b| commit_of_byte(b.as_u64().unwrap()).0));
+    other.append(&mut l);
+    other.commit();
+    let req = sos_protocol::PatchRequest {
+        log_type: EventLogType::Folder(id),
+        commit: case["rewind_to"].as_u64().map(commit_of_byte),
+        proof: other.head().unwrap(),
+        patch: case["patch"].as_array().unwrap().iter().map(fs_record_of).collect(),
+    };
+    let name_of = |cp: &sos_core::events::patch::CheckedPatch| match cp {
+        sos_core::events::patch::CheckedPatch::Success(_) => "success".to_string(),
+        sos_core::events::patch::CheckedPatch::Conflict { .. } => "conflict".to_string(),
+    };
+    let result = if case["direct"].as_bool() == Some(true) {
+        use sos_sync::Merge;
+        let diff = sos_core::events::patch::FolderDiff { last_commit: None, patch: Patch::new(req.patch), checkpoint: req.proof };
+        let mut outcome = sos_sync::MergeOutcome::default();
+        match storage.merge_folder(&id, diff, &mut outcome).await {
+            Ok((cp, _)) => name_of(&cp),
+            Err(e) => format!("err: {}", e),
+        }
+    } else {
+        match sos_server_storage::server_helpers::event_patch::<_, sos_server_storage::Error>(req, &mut storage).await {
+            Ok((res, _)) => name_of(&res.checked_patch),
+            Err(e) => format!("err: {}", e),
+        }
+    };
+    let memory = {
+        let log = storage.folder_log(&id).await.unwrap();
+        let log = log.read().await;
+        leaves_hex(log.tree())
+    };
+    let file_after = std::fs::read(&path).unwrap_or_default();
+    let lt = EventLogType::Folder(id);
+    let reopened = match FsLog::new_folder(&path, account_id, lt).await {
+        Ok(mut fresh) => match fresh.load_tree().await {
+            Ok(_) => json!(leaves_hex(fresh.tree())),
+            Err(e) => json!(format!("err: {}", e)),
+        },
+        Err(e) => json!(format!("err: {}", e)),
+    };
+    let _ = storage.delete_account().await;
+    let _ = std::fs::remove_dir_all(&dir);
+    json!({"outcome": "ok", "result": result, "before": before, "memory": memory, "reopened": reopened,
+           "prefix_leaf": hex::encode(prefix_leaf),
+           "file_changed": file_before != file_after})
+}
+
+
 /// C14 wire part: protobuf bytes -> T (decode) -> bytes (encode) -> T -> bytes through the public
 /// `WireEncodeDecode`; stable iff the second decode succeeds and both encodings and Debug forms agree.
 async fn wire_rt<T>(bytes: Vec<u8>) -> Value
@@ -1087,6 +1193,7 @@ pub async fn run(case: &Value) -> Value {
         "dblog_script" => dblog_script(case).await,
         "wire_roundtrip" => wire_roundtrip_case(case).await,
         "server_devices" => server_devices_case(case).await,
+        "server_event_patch" => server_event_patch_case(case).await,
         "access_control" => access_control(case),
         "fslog_script" => fslog_script(case).await,
         "fslog_open" => fslog_open(case).await,
